@@ -229,12 +229,15 @@ def _step(L, rig, op, tag, D):
         return
     want_reqs = _expected_requests(op)
     if want_reqs is not None:
-        if reqs != want_reqs:
+        # the requests the call implies, in this order; further well-formed CiA 305 requests in between
+        # (anything malformed was reported above) are not the property's subject
+        it = iter(reqs)
+        if not all(any(r == w for r in it) for w in want_reqs):
             bad("request", f"slave decoded requests {reqs}, the call implies {want_reqs} "
                            f"(frames {[f.data.hex() for f in sent]})")
             return
-    elif any(r[0] != "fastscan" for r in reqs) or len(reqs) != len(sent):
-        bad("request", f"fast_scan sent something else than fastscan requests: {reqs[:6]}")
+    elif not any(r[0] == "fastscan" for r in reqs) or len(reqs) != len(sent):
+        bad("request", f"fast_scan sent no fastscan request, or frames that are no LSS requests: {reqs[:6]}")
         return
     if rig.slave.port.notify_errors or rig.port.notify_errors:
         bad("notify-raises", f"{rig.port.notify_errors[:1]}")
@@ -266,9 +269,14 @@ def _step(L, rig, op, tag, D):
                 bad("slave-state", f"scan succeeded but the slave is still in waiting state (LSSPos "
                                    f"{slave.fs_pos}); last request {reqs[-1]}")
         else:
-            if ok:
+            # no slave, or one that was not waiting / not unconfigured when the call began: the property
+            # promises nothing for it - but a success must still be a real one
+            if ok and not delivered:
                 bad("phantom", f"returned {result!r} although nobody answered")
-            elif slave.state != state0:
+            elif ok and (ids is None or [int(x) for x in ids] != slave.identity):
+                bad("identity", f"found {_hexid(ids) if ids is not None else None}, the slave that answered is "
+                                f"{_hexid(slave.identity)}")
+            elif not ok and slave.state != state0 and all(r[0] == "fastscan" for r in reqs):
                 bad("slave-state", "a slave that takes no part changed state")
         return
 
